@@ -141,6 +141,18 @@ def t_execute(side, kind):
     return t
 
 
+def t_float_boundary(h):
+    """BOUNDED, native: assumption A-1 (floats as reals) is not harmless exactly where a decimal sum meets the balance;
+    1024 decimal histories of the real exchange against the exact rational cash-account model (native/C04.py: bounded)"""
+    from pyvc import report as R
+    res = R.native([os.path.join(HERE, '..', 'native', 'run.py'), 'C04'], {'bounded': 'decimal-grid'})
+    if res.get('error'):
+        raise RuntimeError(f'bounded native check failed to run: {res}')
+    h.cover('float.pre')
+    h.prove(not res.get('confirmed'), 'float.decimal-boundary-decisions-equal-the-exact-model',
+            {'detail': res.get('detail'), 'cases': res.get('cases')})
+
+
 def tasks(tier):
     x = dict(spec_mod=SPEC)
     ov = stubs.backtest_mode()
@@ -153,4 +165,5 @@ def tasks(tier):
             if kind != 'MARKET':
                 ts.append(Task(f'cancel.{side}.{kind}', t_cancel(side, kind), extra=x, overrides=dict(ov)))
             ts.append(Task(f'execute.{side}.{kind}', t_execute(side, kind), extra=x, overrides=dict(ov)))
+    ts.append(Task('float-boundary', t_float_boundary, extra=dict(x, bounded='1024 decimal histories on the grid 0.05..3.3 (native, binary floats vs exact model)')))
     return ts
